@@ -1,6 +1,6 @@
 (* L1 correspondence for C12: Model/Stats.v (built on the regenerated kernels) vs. the implementation. *)
 From Coq Require Import ZArith QArith Qcanon List Bool String.
-From DM Require Export Base.PyVal Base.QcPy Spec.Nf Spec.Stats Model.Stats Run.SC12.
+From DM Require Export Base.PyVal Base.QcPy Spec.Nf Spec.Stats Model.Stats Model.StatsOp Run.SC12.
 Import ListNotations.
 
 (* ref here is the harness' Fraction evaluation of what the implementation computes (ints seen through float()
@@ -36,3 +36,27 @@ Definition model_seq (rs : list (kind * reading)) : bool :=
   forallb (fun kr : kind * reading => let '(k, (cells, obs, u, cnt)) := kr in model_agrees k cells obs u cnt) rs.
 Definition in_scope_seq (rs : list reading) : bool :=
   forallb (fun r : reading => let '(cells, _, _, _) := r in xin_scope cells) rs.
+
+(* the buffer `_seq` of an IntColumn as dumped from the implementation at a reading (Model/StatsOp.v): it holds whole
+   numbers -- the cast of IntColumn._operate is the identity on it, so the statistics NumPy reduces from it are those
+   of the cells -- and the cells read from the column are int_cells of it *)
+Fixpoint qlist_eqb (a b : list Qc) : bool :=
+  match a, b with
+  | [], [] => true
+  | x :: a', y :: b' => Qceqb x y && qlist_eqb a' b'
+  | _, _ => false
+  end.
+Fixpoint zlist_eqb (a b : list Z) : bool :=
+  match a, b with
+  | [], [] => true
+  | x :: a', y :: b' => (x =? y)%Z && zlist_eqb a' b'
+  | _, _ => false
+  end.
+Definition int_buffer_ok (buf : list Qc) (cells : list xcell) : bool :=
+  qlist_eqb (int_cast buf) buf &&
+  match all_v cells with
+  | Some vs => match i_vals vs with Some zs => zlist_eqb zs (int_cells buf) | None => false end
+  | None => false
+  end.
+Definition int_buffers_ok (l : list (list Qc * list xcell)) : bool :=
+  forallb (fun p : list Qc * list xcell => int_buffer_ok (fst p) (snd p)) l.
